@@ -122,6 +122,17 @@ def redef_histories():
                  "type C = +{a : 1, b : 1}\nlet g() : C = u : 1 <- new close self; self.b<u>\nprc[m] : 1 = x <- new g(); case x (a<u> => wait u; print isa; close self | b<u> => wait u; print isb; close self)\n"))
     fams.append(("polarity", "type P = 1 * 1\nlet g() : P = a : 1 <- new close self; b : 1 <- new close self; send self<a, b>\nprc[m] : 1 = x <- new g(); <u, w> <- recv x; wait u; wait w; print ok; close self\n",
                  "type P = 1 -* 1\nlet g() : P = <a, w> <- recv self; wait a; close w\nprc[m] : 1 = x <- new g(); u : 1 <- new close self; r : 1 <- new send x<u, self>; wait r; print ok; close self\n"))
+    # residue of a program that was REJECTED half-way through its checks (alias cycles, an undefined name, duplicate
+    # labels, a mode clash): a later program uses the same names in a well-formed way, the re-used name in the FIRST
+    # definition, as a bare alias and inside a structure
+    rejected = [("cycle2", "type A = B\ntype B = A\n"), ("cycle1", "type A = A\n"), ("cycle3", "type A = B\ntype B = C\ntype C = A\n"),
+                ("undefined", "type A = B * 1\n"), ("duplabel", "type A = +{l : 1, l : B}\ntype B = 1\n"),
+                ("modeclash", "type A = lin (1 * B)\ntype B = aff 1\n")]
+    later = [("alias-first", "type X = A\ntype A = 1\ntype B = 1\ntype C = 1\n"), ("alias-b", "type A = B\ntype B = 1\n"),
+             ("alias-c", "type B = C\ntype C = 1\n"), ("struct", "type A = B * 1\ntype B = 1\n"), ("selfrec", "type A = +{l : A, e : 1}\n")]
+    for rn, rt in rejected:
+        for ln, lt in later:
+            fams.append(("residue-%s-%s" % (rn, ln), lt + main, rt + main))
     out = []
     for name, good, bad in fams:
         g, bd = ("redef:%s:good" % name, good), ("redef:%s:bad" % name, bad)
